@@ -13,7 +13,7 @@ Ltac2 Set Whnf.is_blocked as old := fun c =>
 Ltac reduce_hook s :=
   lazymatch s with
   | Angle_reduce_deg Rops (VFloat ?a) =>
-      rewrite (reduce_small a) by (expose_R; Rlit_norm; lra)
+      rewrite (reduce_small a) by (expose_R; zsimp; Rlit_norm; lra)
   end.
 
 Ltac py_stuck_hook s ::= reduce_hook s.
@@ -31,4 +31,12 @@ Lemma angle_rsub p x : -360 < p - x < 360 ->
 Proof.
   intros Ha. unfold ang, tol0. pyrun2.
   replace (- (p + - x)) with (x - p) by ring. reflexivity.
+Qed.
+
+(* the polar-circle limit of Epoch.rise_set: Angle(66, 33, 0) = 66.55 degrees *)
+Lemma angle_limit :
+  Angle___init__ Rops (VObj cAngle [VNone; VNone]) (VTuple [VInt 66; VInt 33; VInt 0]) (VDict []) = ang (6655 / 100).
+Proof.
+  unfold ang, tol0. pyrun2_using zlra. zsimp. Rlit_norm.
+  do 3 f_equal. lra.
 Qed.
